@@ -52,7 +52,9 @@ class GridEmb:
 class AdaptiveAdapter(Adapter):
     name = "PhystAdaptive"
 
-    def __init__(self, grids, spelling: int = 0, wscale=(1, 1), stats_cls=None, late=False):
+    def __init__(self, grids, spelling: int = 0, wscale=(1, 1), stats_cls=None, late=False, coll=False):
+        # coll: the 1-D histograms are members of one HistogramCollection over an adaptive binning (created by c.create)
+        self.coll = coll
         # late: histograms are created with fixed (non-adaptive) fixed-width bins and switched to adaptive only just
         # before the first call that may grow them (set_adaptive(True) after copies / projections have been derived)
         self.late = late
@@ -115,9 +117,38 @@ class AdaptiveAdapter(Adapter):
             if action == "NewEmpty":
                 k, dim = args
                 o[k] = self._new(dim)
+            elif action == "CollCreate":
+                k, batch = args
+                if "_coll" not in o:
+                    from physt.histogram_collection import HistogramCollection
+                    from physt.binnings import FixedWidthBinning
+                    g = self._g(0)
+                    o["_coll"] = HistogramCollection(binning=FixedWidthBinning(bin_width=g.w, bin_shift=g.s, bin_count=0, adaptive=True))
+                data = [self._point(e[0], e[1])[0] for e in batch]
+                w = [self._w(e[2]) for e in batch] if (any(e[2] != 1 for e in batch) or self.wden != 1) else None
+                o[k] = o["_coll"].create(f"m{k}", data, weights=w)
+            elif action == "CollFill":
+                i, cell, cls, w = args
+                pt = self._point(cell, cls, fmap(pre["pool"])[i])
+                obs["ret"] = o[i].fill(pt[0], self._w(w))
+            elif action == "CollFillN":
+                i, batch = args
+                pts = [self._point(e[0], e[1], fmap(pre["pool"])[i]) for e in batch]
+                w = np.array([self._w(e[2]) for e in batch]) if (any(e[2] != 1 for e in batch) or self.wden != 1) else None
+                o[i].fill_n(np.array([p_[0] for p_ in pts], dtype=float), weights=w)
             elif action == "NewFilled":
                 k, dim, batch = args
-                o[k] = self._new(dim, batch)
+                if self.coll:
+                    if "_coll" not in o:
+                        from physt.histogram_collection import HistogramCollection
+                        from physt.binnings import FixedWidthBinning
+                        g = self._g(0)
+                        o["_coll"] = HistogramCollection(binning=FixedWidthBinning(bin_width=g.w, bin_shift=g.s, bin_count=0, adaptive=True))
+                    data = [self._point(e[0], e[1])[0] for e in batch]
+                    w = [self._w(e[2]) for e in batch] if (any(e[2] != 1 for e in batch) or self.wden != 1) else None
+                    o[k] = o["_coll"].create(f"m{k}", data, weights=w)
+                else:
+                    o[k] = self._new(dim, batch)
             elif action == "Fill":
                 i, cell, cls, w = args
                 pt = self._point(cell, cls, fmap(pre["pool"])[i])
@@ -258,7 +289,7 @@ class AdaptiveAdapter(Adapter):
             return Mismatch(["accepted"], {"raised": obs["exc"]})
         pool = fmap(post["pool"])
         live = {i for i, r in pool.items() if "null" not in r}
-        if set(real.keys()) != live:
+        if {k_ for k_ in real.keys() if k_ != "_coll"} != live:
             bad.append("live")
         if action == "Fill" and "ret" in view:
             i, cell, cls, w = args
@@ -272,7 +303,7 @@ class AdaptiveAdapter(Adapter):
             if gotn != exp:
                 bad.append("ret")
                 det["ret"] = {"expected": exp, "observed": repr(got)}
-        for i in sorted(live & set(real.keys())):
+        for i in sorted(live & {k_ for k_ in real.keys() if k_ != "_coll"}):
             rec = pool[i]
             grids = [self._g(a) for a in range(len(rec["axes"]))]
             if rec.get("proj") is not None:
@@ -316,6 +347,19 @@ class AdaptiveAdapter(Adapter):
         return None
 
     def tag(self, action, args, pre, real=None):
+        if action.startswith("Coll"):
+            pool = fmap(pre["pool"])
+            n = sum(1 for r in pool.values() if "null" not in r)
+            who = args[0]
+            grows = "?"
+            return f"{action}/members{n}"
+        t = self._tag(action, args, pre)
+        if self.coll:
+            others = sum(1 for r in fmap(pre["pool"]).values() if "null" not in r)
+            return t + ("~coll-shared" if others >= (2 if action in ("Fill", "FillN") else 1) else "~coll")
+        return t
+
+    def _tag(self, action, args, pre):
         pool = fmap(pre["pool"])
 
         def st(i):
